@@ -23,16 +23,19 @@ CHUNK = 2
 
 RES = [256, 1000, 1024, 4096, 65536, 262144]
 LOWLOG = {'rfi-log4-0.01': (4.0, 0.01), 'rfi-log3-0.5': (3.0, 0.5), 'rfi-log5-0.1': (5.0, 0.1)}     # log amplifiers whose lowest value lies between 0 and 1
-STATES = ['raw', 'rfi-lin', 'rfi-log4', 'rfi-log2.5-0', 'mef', 'float-neg', 'shifted'] + sorted(LOWLOG) + ['mef-low']      # 'shifted': range starting below zero (linear scale only)
+STATES = ['raw', 'rfi-lin', 'rfi-log4', 'rfi-log2.5-0', 'mef', 'float-neg', 'shifted'] + sorted(LOWLOG) + ['mef-low', 'float-neg-nan']      # 'shifted': range starting below zero (linear scale only)
 
 
 def make(res3, state):
     """three channels with the same state but different resolutions; returns sample and the per-channel value function"""
     import FlowCal
-    if state == 'float-neg':
+    if state in ('float-neg', 'float-neg-nan'):
         # floating-point sample with negative events (compensated data): only logicle scale looks at the events
         ev = [[0.0, 0.0, 0.0], [1.0, 1.0, 1.0], [float(r - 1) for r in res3], [float(r // 2) for r in res3],
               [-0.01 * res3[0], -0.2 * res3[1], -3.0], [-1.0, -0.5, -0.25]]
+        if state == 'float-neg-nan':
+            # ... and events without a value (NaN) in the same channels: the edges are still n+1 finite increasing values
+            ev = [[float('nan'), 5.0, float('nan')]] + ev + [[3.0, float('nan'), 2.0]]
         lay = dict(datatype='D', bits=[64] * 3, ranges=list(res3), byteord='4,3,2,1',
                    events=[[fcsgen.float_bits(x, 'D') for x in r] for r in ev])
         buf, _ = fcsgen.build(lay)
@@ -40,7 +43,8 @@ def make(res3, state):
         with open(p, 'wb') as f:
             f.write(buf)
         d = FlowCal.io.FCSData(p)
-        d._c19_min = [min(r[j] for r in ev) for j in range(3)]
+        d._c19_min = [min(r[j] for r in ev if r[j] == r[j]) for j in range(3)]
+        d._c19_nan = state == 'float-neg-nan'
         return d, [lambda x: x] * 3
     pne = {'raw': '0,0', 'rfi-lin': '0,0', 'rfi-log4': '4,1', 'rfi-log2.5-0': '2.5,0', 'mef': '4,1', 'shifted': '0,0', 'mef-low': '4,1'}.get(state)
     if state in LOWLOG:
@@ -91,7 +95,7 @@ def cases(tier, seed):
                 yield dict(res=rs, state=st, scale=scale, tier=tier)
                 yield dict(res=rs, state=st, scale=scale, tier=tier, history='after-log')
                 yield dict(res=rs, state=st, scale=scale, tier=tier, history='empty')
-                if st == 'float-neg' and scale == 'logicle':
+                if st in ('float-neg', 'float-neg-nan') and scale == 'logicle':
                     yield dict(res=rs, state=st, scale=scale, tier=tier, history='edited')
             if st != 'shifted':
                 yield dict(res=rs, state=st, scale='lists', tier=tier)
@@ -240,7 +244,7 @@ def run_case(c):
             # a sample without events (everything gated out): the edges depend on range and resolution only
             d_full = d
             d = d[:0]
-            if st == 'float-neg':
+            if st in ('float-neg', 'float-neg-nan'):
                 d._c19_min = [0, 0, 0]
         if c.get('history') == 'edited':
             # logicle bins are asked for, then the events are changed in place (background subtraction), then asked for again: the
@@ -300,15 +304,22 @@ def run_case(c):
                             mn = getattr(d, '_c19_min', [0, 0, 0])[j]
                             W = logicleref.derived_W(T, M, mn if mn < 0 else None)
                         delta = M / (r - 1.0)
-                        p = logicleref.p_of_W(W)
                         grid = [(-delta / 2) + i * (M + delta) / n for i in range(n + 1)]
                         step = max(1, (n + 1) // 400)
-                        span = logicleref.biexp(M, T, M, W, p) - logicleref.biexp(0.0, T, M, W, p)
+                        # (with NaN events next to negative ones "the most negative event" has two defensible readings -- the smallest
+                        # number, or none because the minimum is undefined: the grid of either linear width is accepted)
+                        Ws = [W] + ([0.0] if getattr(d, '_c19_nan', False) and 'W' not in kw else [])
                         bad = None
-                        for i in list(range(0, n + 1, step)) + [n]:
-                            ref = logicleref.biexp(grid[i], T, M, W, p)
-                            if abs(e[i] - ref) > 1e-7 * max(abs(ref), span):
-                                bad = (i, e[i], ref)
+                        for W in Ws:
+                            p = logicleref.p_of_W(W)
+                            span = logicleref.biexp(M, T, M, W, p) - logicleref.biexp(0.0, T, M, W, p)
+                            bad = None
+                            for i in list(range(0, n + 1, step)) + [n]:
+                                ref = logicleref.biexp(grid[i], T, M, W, p)
+                                if abs(e[i] - ref) > 1e-7 * max(abs(ref), span):
+                                    bad = (i, e[i], ref)
+                                    break
+                            if bad is None:
                                 break
                         if bad:
                             res.violation(sig + ':grid', '%s: edge %d is %r, the image of the uniform display grid is %r' % (what, bad[0], float(bad[1]), bad[2]), one)
